@@ -71,6 +71,13 @@ CHECKS["C05"] = dict(
     design_ref="3/C05",
 )
 
+CHECKS["C06"] = dict(
+    technique="small-scope exhaustion of all edge subsets (fixed-pattern probing; AllSAT projection vs DFS cycle enumeration on larger frames) through an independent solver, with the returned array checked for being forced",
+    text="Cycle (rank + native) and path (native): every loop-free multigraph with n<=4, m<=5 (thorough m<=6, n<=5), drawn multigraphs n<=5, m<=8, every BoolGridFrame 0<=h,w<=3 (thorough + 3x4): all 2^m subsets by fixed-pattern probing when m<=12, otherwise the AllSAT projection of the posted program on the edge variables must equal {empty} + the DFS-enumerated simple cycles of the lattice (3x3: 214 models cover 2^24 subsets). For every admitted pattern 'pattern and returned array != visited vertices' must be UNSAT; frame results must have shape (h+1, w+1). End-to-end find_answer cases check the returned array's sol. Exhaustive within the scope.",
+    note="Trusted base: vlib/graphref (degrees + union-find), vlib/lattice (geometry, DFS enumeration; the two reference formulations are cross-checked against each other at run time), vlib/refz3. The rank form of single_path raising RuntimeError('TODO') is documented. 11/11 sensitivity mutants caught; found and fixed 'single_path rejects the empty set'.",
+    design_ref="3/C06",
+)
+
 NOT_BUILT_REASON = "check not built yet in this session (planned in DESIGN.md section 3); not claimed until it runs quietly and is mutation-tested"
 
 def main():
